@@ -977,6 +977,14 @@ theorem appsTransmit_good (now : Int) (hp : Bool) : ∀ (k : Nat) (c : Ctx) (d :
           { d with firstApp := some (d.firstApp.getD c1.s.nextApp) } fcd ⟨hi2, ho1, htx1⟩ rfl hmod
         exact ⟨c2, b2, h2, hi3, ho3, by rw [hl3]; exact hl1, hb3⟩
 
+theorem passNow_good (c : Ctx) (now : Int) (hpre : Pre c) (d : UseData) (fcd : Bool)
+    (hst : c.s.st = .useToken d fcd) : Good c.apps.length (passNow c now) := by
+  unfold passNow
+  simp only [tr, toPassToken, hst, Res.bind]
+  have hpre2 : Pre { c with s := { c.s with st := .passToken true .first } } :=
+    ⟨hpre.inv.setSt hpre.on (.passToken true .first) (by simp) (by simp) (by simp), hpre.on, hpre.tx⟩
+  exact doPassToken_good _ now hpre2 true .first rfl
+
 theorem useTokenGo_good (c : Ctx) (now : Int) (d : UseData) (hp : Bool) (hpre : Pre c) (fcd0 : Bool)
     (hst : c.s.st = .useToken d fcd0) : Good c.apps.length (useTokenGo c now d hp) := by
   unfold useTokenGo
@@ -984,8 +992,9 @@ theorem useTokenGo_good (c : Ctx) (now : Int) (d : UseData) (hp : Bool) (hpre : 
   have hi1 : Inv { c.s with st := .useToken d true } c.apps := hpre.inv.setSt hpre.on _ (by simp) (by simp) (by simp)
   by_cases h0 : c.apps.length = 0
   · -- no application: nobody is asked, the token is passed on
-    simp only [h0, appsTransmit, tr, toPassToken]
-    exact ⟨_, rfl, hi1.setSt hpre.on (.passToken true .first) (by simp) (by simp) (by simp), h0⟩
+    simp only [h0, appsTransmit]
+    have := passNow_good { c with s := { c.s with st := .useToken d true } } now ⟨hi1, hpre.on, hpre.tx⟩ d true rfl
+    simpa only [h0] using this
   · have happ : c.s.nextApp < c.apps.length := hpre.inv.app (by omega)
     obtain ⟨c1, b, h1, hi2, ho2, hl2, hb2⟩ := appsTransmit_good now hp c.apps.length
       { c with s := { c.s with st := .useToken d true } } d true ⟨hi1, hpre.on, hpre.tx⟩ rfl happ
@@ -993,9 +1002,11 @@ theorem useTokenGo_good (c : Ctx) (now : Int) (d : UseData) (hp : Bool) (hpre : 
     cases b with
     | true => exact good_ok _ hi2 hl2
     | false =>
-      obtain ⟨-, d', hst'⟩ := hb2 rfl
-      simp only [tr, toPassToken, hst']
-      exact good_ok _ (hi2.setSt ho2 _ (by simp) (by simp) (by simp)) hl2
+      obtain ⟨htx', d', hst'⟩ := hb2 rfl
+      simp only
+      have := passNow_good c1 now ⟨hi2, ho2, htx'⟩ d' _ hst'
+      rw [hl2] at this
+      exact this
 
 theorem coreEq_holdUpdate (s : Station) (d : UseData) : CoreEq (holdUpdate s d) s := by
   unfold holdUpdate; split <;> simp [CoreEq]
@@ -1024,8 +1035,8 @@ theorem doUseToken_good (c : Ctx) (now : Int) (hpre : Pre c) (d : UseData) (fcd 
         simp only [Bool.not_false, if_true]
         exact useTokenGo_good _ now d true hpre1 false hst1
       | true =>
-        simp only [Bool.not_true, Bool.false_eq_true, if_false, tr, toPassToken, hst1]
-        exact good_ok _ (hpre1.inv.setSt hpre1.on (.passToken true .first) (by simp) (by simp) (by simp)) rfl
+        simp only [Bool.not_true, Bool.false_eq_true, if_false]
+        exact passNow_good _ now hpre1 d true hst1
 
 theorem doAwaitDataResponse_good (c : Ctx) (now : Int) (hpre : Pre c) (addr : Nat) (d : UseData)
     (hst : c.s.st = .awaitData addr d) : Good c.apps.length (doAwaitDataResponse c now) := by
